@@ -1,3 +1,4 @@
+import TantivyModel.Proofs.SSTable.Prefix
 import TantivyModel.Proofs.SSTable.MergeProofs
 import TantivyModel.Proofs.SSTable.Refine
 import TantivyModel.Proofs.SSTable.Writer
@@ -316,7 +317,6 @@ theorem C15_inverted_range_counterexample :
     range [(([1] : Key), 10), ([2], 20), ([3], 30)] (.incl [3]) (.excl [1]) = [] := by decide
 
 /- Still to prove (full statements; the harness compares these operations on every run):
-   C15_prefix_range           : isPrefixOf p k ↔ matchLo (prefixBounds p).1 k ∧ matchHi (prefixBounds p).2 k
    C15_merge_round_tables     : the per-round tables `kmergeOrds` (mirror of TermMerger::advance +
                                 matching_segments) list, for input i, exactly the pairs
                                 (new ordinal, old ordinal) of `ordMap` (C15_term_ordinal_remap) -/
@@ -370,6 +370,26 @@ theorem C15_term_ordinal_remap {V} (comb : List V → V) (ms : List (Assoc V))
   obtain ⟨m', hm', rfl⟩ := List.mem_map.mp hl
   obtain ⟨e, he, rfl⟩ := List.mem_map.mp hkl
   exact ⟨m', hm', e, he, rfl⟩
+
+/-! ## prefix streams -/
+
+/-- `Dictionary::prefix_range(p)`: the bounds it builds (`≥ p`, `< p` with trailing 0xFF bytes
+dropped and the last byte incremented; no upper bound if `p` is all 0xFF) select exactly the keys
+that start with `p`, for every prefix and key (incl. the empty prefix and 0xFF bytes) -/
+theorem C15_prefix_range (p k : Key) :
+    isPrefixOf p k = true ↔
+      (matchLo (prefixBounds p).1 k = true ∧ matchHi (prefixBounds p).2 k = true) :=
+  prefix_range_iff p k
+
+/-- hence a prefix stream of the dictionary is (a limited prefix of) `prefixed m p` -/
+theorem C15_prefix_stream {V} (m : Assoc V) (p : Key) :
+    range m (prefixBounds p).1 (prefixBounds p).2 = prefixed m p := by
+  unfold range prefixed
+  congr 1
+  funext e
+  have := C15_prefix_range p e.1
+  cases h1 : isPrefixOf p e.1 <;> cases h2 : matchLo (prefixBounds p).1 e.1 <;>
+    cases h3 : matchHi (prefixBounds p).2 e.1 <;> simp_all
 
 /-! ## insertion order (DESIGN §8, F6) -/
 
